@@ -394,6 +394,36 @@ impl Prop for C14 {
             let in_debug = in_customs.iter().any(|(x, _)| x.starts_with(b".debug"));
             out.hit(&format!("dwarf_{}_input_{}", if v.dwarf { "on" } else { "off" }, if in_debug { "has_debug" } else { "no_debug" }));
 
+            // M4: the switches that document no effect on the output (strict validation, keeping the code-offset map
+            // for extension code, the instruction-location callback, and -- for a module accepted either way -- the
+            // stable-features gate) leave the emitted bytes alone.  (Not with DWARF generation on, which consumes the
+            // code-offset map by design.)
+            if h == 0 && !v.dwarf {
+                for which in 0..4u8 {
+                    let mut w = vcb.clone();
+                    match which {
+                        0 => w.strict = !w.strict,
+                        1 => w.code_transform = !w.code_transform,
+                        2 => w.on_instr_loc = !w.on_instr_loc,
+                        _ => w.only_stable = !w.only_stable,
+                    }
+                    let rt4 = match round_trip(env, &cur, &w) {
+                        Ok(r) => r,
+                        Err(e) => {
+                            out.harness_error = Some(e);
+                            return out;
+                        }
+                    };
+                    // (the stable-features gate may legitimately REJECT the input: then there is nothing to compare)
+                    let Some(b) = rt4.bytes else { continue };
+                    out.hit("checked_output_neutral_switch");
+                    if b != a {
+                        let name = ["strict_validate", "preserve_code_transform", "on_instr_loc", "only_stable_features"][which as usize];
+                        out.failure = fail("switch_without_documented_output_effect_changes_output", format!("hop {}: flipping `{}` changed the emitted bytes: {}", h, name, life::bytes_diff(&a, &b)));
+                        return out;
+                    }
+                }
+            }
             // M3: the synthetic-names switch names ANONYMOUS items only: every name the output carries with the
             // switch off is carried, unchanged, with the switch on, and nothing but the name section differs
             if v.names && h == 0 {
